@@ -30,9 +30,12 @@ def obs_class(obs):
     return obs if obs.startswith("state:") else obs.split(":")[0]
 
 
-def first_diff(sa, sb, fa, fb, off=0, tol=R.TOL, resumed=False, tf_lagged=False):
+def first_diff(sa, sb, fa, fb, off=0, tol=R.TOL, resumed=False, tf_lagged=False, sleep_factor=0, states=True):
     """first difference between step lists sa[off:] and sb, then between final state files; (t, (obs, a, b)) or None"""
+    awake_seen = False
     for j, b in enumerate(sb):
+        if sleep_factor > 1 and b["it"] % sleep_factor == 0:
+            awake_seen = True
         if off + j >= len(sa):
             return (off + j, ("steps", len(sa), off + len(sb)))
         dd = R.diff_blocks(sa[off + j], b, tol)
@@ -43,8 +46,17 @@ def first_diff(sa, sb, fa, fb, off=0, tol=R.TOL, resumed=False, tf_lagged=False)
             # compare everything else of the step
             b2 = dict(b); a2 = dict(sa[off + j]); b2.pop("tf"); a2.pop("tf")
             dd = R.diff_blocks(a2, b2, tol)
+        if dd and resumed and sleep_factor > 1 and not awake_seen and dd[0].split(":")[0] in ("cv", "bias"):
+            # objects with timeStepFactor f have slept since the restart: what they report is what they held when they
+            # were last updated in this session (nothing, in a new one); forces on atoms and energies are compared
+            b2 = dict(b); a2 = dict(sa[off + j])
+            for key in ("cv", "bias"):
+                b2[key] = {}; a2[key] = {}
+            dd = R.diff_blocks(a2, b2, tol)
         if dd:
             return (off + j, dd)
+    if not states:
+        return None
     if len(sa) - off != len(sb):
         return (len(sa) - 1, ("steps", len(sa) - off, len(sb)))
     ds = R.diff_states(fa, fb, tol)
@@ -105,7 +117,8 @@ def judge(c, d, out, rc, err):
                     % (fmt, it0 + K, "at step %d" % (it0 + t) if t is not None else "in the final state", obs, y, x),
                     K, fmt, t=t, obs=obs)
             # B = A
-            dd = first_diff(A["steps"], B["steps"], fA, fB, off=K, resumed=True, tf_lagged=c.get("tf_lagged", False))
+            dd = first_diff(A["steps"], B["steps"], fA, fB, off=K, resumed=True, tf_lagged=c.get("tf_lagged", False),
+                            sleep_factor=c.get("sleep_factor", 0))
             if dd:
                 t, (obs, x, y) = dd
                 when = "final" if t is None else ("at-restart-step" if t == K else "after")
@@ -155,6 +168,83 @@ def judge(c, d, out, rc, err):
                     key = "bytes"
                 add("save-after-load", "save-after-load:%s:%s" % (fam, key),
                     "state written after step %d (%s), loaded in a fresh instance and written again: %s" % (it0 + K, fmt, det), K, fmt)
+    # automatic restart file written by the module at step K: a fresh instance that loads it goes on like the uninterrupted run
+    for K in c.get("auto_Ks", []):
+        Q, QB = runs.get("Q_%d" % K), runs.get("QB_%d" % K)
+        if Q is None or QB is None or len(Q["steps"]) != K + 1:
+            add("harness", "harness:%s:run-missing" % fam, "run Q_%d missing or short (rc=%s) %s" % (K, rc, err[-200:]), K, "auto")
+            continue
+        ev = [e for e in Q["events"] + QB["events"] if "err=ok" not in e]
+        if ev or not os.path.exists("%sQ_%d.colvars.state" % (pre, K)):
+            add("load-error", "auto-restart:%s:not-loaded" % fam,
+                "restart file written by the module at step %d (colvarsRestartFrequency %d): %s" % (it0 + K, R.auto_freq(c, K), ev[:1] or "no file"), K, "auto")
+            continue
+        dd = first_diff(U["steps"], QB["steps"], fU, pre + "QB_%d.colvars.state" % K, off=K, resumed=True,
+                        tf_lagged=c.get("tf_lagged", False), sleep_factor=c.get("sleep_factor", 0))
+        if dd:
+            t, (obs, x, y) = dd
+            when = "final" if t is None else ("at-restart-step" if t == K else "after")
+            add("resume", "auto-restart:%s:%s:%s" % (fam, obs_class(obs), when),
+                "the module writes its restart file at step %d (colvarsRestartFrequency %d), the job ends, a fresh instance loads "
+                "the file and continues: %s %s is %r, in the uninterrupted run %r"
+                % (it0 + K, R.auto_freq(c, K), "at step %d" % (it0 + t) if t is not None else "in the final state", obs, y, x),
+                K, "auto", t=t, obs=obs)
+    # a job resumed twice ends like the uninterrupted run
+    for K1, K2, fmt in c.get("chain_Ks", []):
+        lab = "%d_%d_%s" % (K1, K2, fmt)
+        C3 = runs.get("C3_" + lab)
+        evs = [e for n in ("C1_", "C2_", "C3_") for e in (runs.get(n + lab) or {"events": ["missing"]})["events"] if "err=ok" not in e]
+        if C3 is None or evs:
+            add("load-error", "chain:%s:not-loaded" % fam, "stop after steps %d and %d (%s), resumed twice: %s" % (it0 + K1, it0 + K2, fmt, evs[:1]), K2, fmt)
+            continue
+        dd = first_diff(U["steps"], C3["steps"], fU, pre + "C3_%s.colvars.state" % lab, off=K2, resumed=True,
+                        tf_lagged=c.get("tf_lagged", False), sleep_factor=c.get("sleep_factor", 0))
+        if dd:
+            t, (obs, x, y) = dd
+            when = "final" if t is None else ("at-restart-step" if t == K2 else "after")
+            add("resume", "chain:%s:%s:%s" % (fam, obs_class(obs), when),
+                "stopped after step %d, resumed, stopped after step %d, resumed (%s states): %s %s is %r, in the uninterrupted run %r"
+                % (it0 + K1, it0 + K2, fmt, "at step %d" % (it0 + t) if t is not None else "in the final state", obs, y, x), K2, fmt, t=t, obs=obs)
+    # state handed over as a buffer in memory: same as through a file
+    for K, fmt in c.get("buffer_Ks", []):
+        lab = "%d_%s" % (K, fmt)
+        MA, MB, B = runs.get("MA_" + lab), runs.get("MB_" + lab), runs.get("B_" + lab)
+        if MA is None or MB is None:
+            add("harness", "harness:%s:run-missing" % fam, "run M_%s missing (rc=%s) %s" % (lab, rc, err[-200:]), K, fmt)
+            continue
+        ev = [e for e in MA["events"] + MB["events"] if "err=ok" not in e]
+        if ev:
+            add("load-error", "buffer:%s:%s-error" % (fam, ev[0].split()[0].lower()),
+                "state kept as a %s buffer after step %d, fresh instance: %s" % (fmt, it0 + K, ev[0]), K, fmt)
+            continue
+        if B is None:
+            continue
+        dd = first_diff(B["steps"], MB["steps"], pre + "B_%s.colvars.state" % lab, pre + "MB_%s.colvars.state" % lab, off=0, tol=0.0)
+        if dd:
+            t, (obs, x, y) = dd
+            add("resume", "buffer:%s:%s" % (fam, obs_class(obs)),
+                "state after step %d handed to a fresh instance as a %s buffer in memory instead of a file: %s %s is %r, through the "
+                "file %r" % (it0 + K, fmt, "at step %d" % (it0 + K + t) if t is not None else "in the final state", obs, y, x), K, fmt)
+    # run boundary in the same session: step K is computed twice, nothing is reloaded
+    for K in c.get("boundary_Ks", []):
+        Rr = runs.get("R_%d" % K)
+        if Rr is None or len(Rr["steps"]) != T + 1:
+            add("harness", "harness:%s:run-missing" % fam, "run R_%d missing or short (rc=%s) %s" % (K, rc, err[-200:]), K, "boundary")
+            continue
+        steps = Rr["steps"][:K + 1] + Rr["steps"][K + 2:]
+        rep = Rr["steps"][K + 1]
+        found = []
+        dd = first_diff(U["steps"], [rep], None, None, off=K, resumed=True, tf_lagged=c.get("tf_lagged", False), states=False)
+        if dd:
+            found.append(("at-repeated-step", dd))
+        dd = first_diff(U["steps"], steps, fU, pre + "R_%d.colvars.state" % K)
+        if dd:
+            found.append(("final" if dd[0] is None else "after", dd))
+        for when, (t, (obs, x, y)) in found:
+            add("resume", "run-boundary:%s:%s:%s" % (fam, obs_class(obs), when),
+                "a run ends after step %d and the next run of the same session computes that step again: %s %s is %r, "
+                "in the uninterrupted run %r" % (it0 + K, "at step %d" % (it0 + t) if t is not None else "in the final state", obs, y, x),
+                K, "boundary", t=t, obs=obs)
     # both formats lead to the same final state
     if "text" in c["fmts"] and "binary" in c["fmts"] and not F:
         for K in c["Ks"]:
@@ -173,6 +263,9 @@ def run_cases(exe, cases, d, keep=False, callback=None):
     """-> per case: findings, or (findings, callback(c, parsed runs)) when a callback is given"""
     def one(c):
         lines = R.scenario(c, d)
+        for fn, txt in (c.get("files") or {}).items():      # input files of the configuration (target distributions)
+            with open(os.path.join(d, fn), "w") as fh:
+                fh.write(txt)
         rc, out, err = run_scenario(exe, lines, cwd=d)
         c["_nsteps"] = sum(1 for l in out if l.startswith("STEP"))
         F = judge(c, d, out, rc, err)
